@@ -172,7 +172,6 @@ theorem lookups_in_range_and_filled (P : Rat) (nums : List Int) (errs : List Rat
 theorem recomputed_are_absent (P : Rat) (nums : List Int) (errs : List Rat) (t0 : Int) (k : Int) :
     k ∈ (plan P nums errs t0).missed → k ∉ nums := fun h => (missed_spec P nums errs t0 k h).1
 
-/-- the two rows are `floor (n - e*rate)` and the next one, the weight is its fractional part in [0, 1) -/
 /-- `np.arange(min_line, max_line + 1)` with `max_line` still a scalar of the POD field's signed 16-bit type (the code
 before fix f795ded): the stop value as numpy computes it -/
 def arangeStopI16 (maxLine : Int) : Int := (maxLine + 1 + 32768) % 65536 - 32768
@@ -185,6 +184,7 @@ theorem arange_stop_exact (m : Int) (h0 : -32768 ≤ m) (h1 : m < 32767) : arang
 recomputed (reproduced through the POD LAC reader; `plan`, over the integers, is what the fixed code does) -/
 theorem arange_stop_top : arangeStopI16 32767 = -32768 := by decide
 
+/-- the two rows are `floor (n - e*rate)` and the next one, the weight is its fractional part in [0, 1) -/
 theorem fractional_line (P : Rat) (nums : List Int) (errs : List Rat) (t0 : Int) :
     (plan P nums errs t0).floorL = (plan P nums errs t0).shifted.map Rat.floor ∧
     (plan P nums errs t0).shifted = List.zipWith (fun (n : Int) (e : Rat) => (n : Rat) - e / scanRateSec P) nums errs ∧
